@@ -83,7 +83,7 @@ PROPS = {
     "C11": {
         "m": None,
         "k": [
-            H("c11::c11_duration_fraction_kept", "q", "FormattableDuration writer, precision Auto, no date part, hours/minutes/seconds 0..=9, any nanosecond: a fraction is written iff the nanoseconds are non-zero and it is part of the seconds component"),
+            H("c11::c11_duration_fraction_kept", "t", "FormattableDuration writer, precision Auto, no date part, hours/minutes/seconds 0..=9, any nanosecond: a fraction is written iff the nanoseconds are non-zero and it is part of the seconds component"),
             H("c11::c11_date_writer", "q", "FormattableDate writer for every year in -999999..=999999 and month/day: decoded by a fixed-layout decoder, 4-digit iff 0..=9999"),
             H("c11::c11_time_writer_auto", "t", "FormattableTime writer, precision Auto: every time and nanosecond 0..1e9 - fraction exact and minimal"),
             H("c11::c11_time_writer_minute", "q", "precision Minute"),
